@@ -54,7 +54,7 @@ func profiles() map[string]Profile {
 	p = base
 	p.Name = "C11"
 	p.MemOnly = 10
-	p.Copy, p.Snap, p.SnapClose, p.SetColl, p.RmColl = 6, 3, 2, 2, 1
+	p.Copy, p.Snap, p.SnapClose, p.SetColl, p.RmColl, p.MaxColls, p.Set = 9, 3, 2, 6, 2, 5, 22
 	m["C11"] = p
 
 	p = base
@@ -123,7 +123,7 @@ func profiles() map[string]Profile {
 
 	p = base
 	p.Name = "C17"
-	p.Flush, p.Image, p.Visit, p.Copy, p.Reopen, p.MemOnly = 10, 5, 6, 2, 6, 10
+	p.Flush, p.Image, p.Visit, p.Copy, p.Reopen, p.MemOnly, p.Revert, p.Snap, p.SnapClose = 10, 5, 6, 2, 6, 10, 3, 2, 1
 	p.Cfg = func(r *rand.Rand) int { return r.Intn(256) }
 	m["C17"] = p
 	return m
